@@ -171,6 +171,13 @@ class Monitors:
         hist_before = {u: list(h) for u, h in self.answered.items()}
         swept = {u for u, d in prev.items() if int(d["qs"].split("/")[0]) != 0}      # sessions the sweep will serve
 
+        # ---- C05: an established session keeps being served whatever else arrived in between
+        if q is not None and q.cmd == "p" and q.user is not None and q.user in prev and q.id != 0:
+            pz = prev[q.user]
+            if pz["au"] == "1" and pz["conn"] == "1" and int(pz["lp"]) + 60 >= now and (not cfg["check_ip"] or (pz["host"] != "none" and q.host == host_of(pz["host"]))):
+                self.stats["served"] = self.stats.get("served", 0) + 1
+                if any(e[1] == q.src and int(e[2]) == q.id and vlib.unhx(e[6]) == b"BADIP" for e in hans):
+                    self.bad("C05", "a ping of the live, logged-in session %d from its own address was refused with BADIP" % q.user)
         # ---- C14: answers are injected into received queries
         if q is not None:
             k = (q.src, q.id, q.type, q.name)
